@@ -31,7 +31,7 @@ MANIFEST = {
               "violation of that call-graph rule."),
     "note": ("Trusted: rustc front end; spec/sgr.py; that Formatter::write_str ignores formatting flags (std). Not decided: that "
              "the decimal digits computed by write_code equal the number given (only the shape of the three digit stores)."),
-    "technique": "static analysis: the colour code tables by abstract evaluation over the 16 colours vs the SGR spec, builder-chain template extraction, path enumeration of write_code, case-split abstract evaluation of the emit order (8 presence combinations x failing position) and of the reset forms over 16 style classes, Display call-graph + opaque-type rule",
+    "technique": "static analysis: the colour code tables by abstract evaluation over the 16 colours vs the SGR spec, builder-chain template extraction, path enumeration of write_code, end-to-end abstract evaluation of both effect renderers (iterator included) on the empty set, all singles, all pairs and the full set (thorough: all 4096), case-split abstract evaluation of the emit order (8 presence combinations x failing position) and of the reset forms over 16 style classes, Display call-graph + opaque-type rule",
 }
 
 C = "anstyle::color::"
